@@ -24,7 +24,7 @@ ASSUMPTIONS = ["MonoTimer(retro=True) only (retro=False documents raising on a r
 PROBES = ["mono_steady_arithmetic_checked", "tymer_rewind", "tymer_restart", "tymer_wind", "tymer_start_offset", "mono_backward_between_reads", "mono_backward_then_start",
           "mono_expired_then_backward", "mono_restart"]
 BOUNDS = dict(quick=dict(ops=30), thorough=dict(ops=80))
-TIERS = dict(quick=dict(cases=40000, wall=30.0), thorough=dict(cases=5000000, wall=420.0))
+TIERS = dict(quick=dict(cases=150000, wall=60.0), thorough=dict(cases=5000000, wall=420.0))
 SIM_TIME_UNIT = "simulated seconds (tyme for Tymer, true seconds for MonoTimer)"
 
 DELTAS = [0.0, 1.0, 0.25, 0.03125, 0.1, 1.0 / 3.0, 2.5, -0.5, -0.1, -3.0, 1e-9]
